@@ -26,9 +26,13 @@ def apply_bounds(genomes: np.ndarray, bounds: np.ndarray, method: str) -> np.nda
         is_odd_flip = np.mod(flips, 2) == 1
         reflected_genomes = np.where(is_odd_flip, range_size - mod_genomes, mod_genomes)
         # Return genomes to their original positions with bounds applied
-        return lower_bounds + reflected_genomes
+        repaired_genomes = lower_bounds + reflected_genomes
     elif method == "toroidal":
         range_size = upper_bounds - lower_bounds
-        return lower_bounds + (genomes - lower_bounds) % range_size
+        repaired_genomes = lower_bounds + (genomes - lower_bounds) % range_size
     else:
         raise ValueError(f"Unknown method: {method}")
+    # Coordinates that already lie in the box (faces included) stay where they are, and rounding in the
+    # arithmetic above must not push a repaired coordinate past a face.
+    in_bounds = (genomes >= lower_bounds) & (genomes <= upper_bounds)
+    return np.where(in_bounds, genomes, np.clip(repaired_genomes, lower_bounds, upper_bounds))
